@@ -17,7 +17,10 @@
 (* row with that stream not a terminal.  A row is the settings an appender is *)
 (* built with, not the order in which a builder was given them: the replay    *)
 (* names the target before tty_only in half of its variants and after it in   *)
-(* the other half.                                                            *)
+(* the other half.  What an appender does is decided once, when it is built:  *)
+(* a write that fails (the reader of a pipe has gone away) changes nothing    *)
+(* about the writes that follow - the replay makes one append fail with a     *)
+(* broken pipe, re-points the stream at a file and expects Writes there.      *)
 (***************************************************************************)
 EXTENDS Integers, Sequences, FiniteSets, TLC
 EnvVals == {"unset", "0", "1"}
